@@ -142,6 +142,10 @@ def extract(dialects, spark_exec=None):
             if em[0] != name.lower():
                 raise Untranslatable(f"{d}/{role}: level emits {em[0]} but dialect property is {name}")
             pk = probe(ex, name)
+            if d == "spark" and pk is None:
+                # Scala UDF jar absent on the installed Spark 4: the role cannot be executed in this sandbox
+                notes[f"{d}:{role}"] = {"probe": None, "skipped": "function unavailable on the installed Spark (no UDF jar)"}
+                continue
             if static is not None:
                 st = static.get(name)
                 registered = st is not None
